@@ -1,3 +1,796 @@
-//! C12 — not built yet.
-pub const BUILT: bool = false;
-pub fn run(_rep: &mut vx::Report) {}
+//! C12 — font subsetting keeps every requested glyph intact.
+//!
+//! Space (all enumerated, nothing sampled):
+//!  * `roboto-chars`, `sourcesans-chars`: the two bundled fonts × ALL 4096 subsets of a
+//!    12-character set (plain Latin, scaled-composite dash, two composite-accented letters
+//!    sharing a base, space, ligature, Cyrillic simple + composite, Greek, a second code
+//!    point mapped to the same glyph, an unmapped CJK character, a mapped astral
+//!    character) through `truetype_subsetter::subset_font` (and, for the CFF font, also
+//!    `cff_subsetter::subset_cff_font` directly). Thorough adds two more 12-character sets.
+//!  * `bundled-large-sets`: prefixes of each font's whole repertoire (all, 3/4, 1/2, 1/4,
+//!    100 characters) — the "needs most glyphs, keep the full font" path.
+//!  * `synthetic-gids`: synthetic TrueType fonts written by refpdf::ttf::synth (8 glyphs:
+//!    simple, empty, composite with scaled component, nested composite with 2×2 /
+//!    x-y-scale / scaled offset, point-matched composite; short|long loca;
+//!    numberOfHMetrics = n | n-2; with|without instructions) × all 256 glyph-id sets
+//!    through `subset_font_by_gids`.
+//!  * `synthetic-chars`: the same fonts × all 256 subsets of their 8-character set through
+//!    `subset_font`; padded past 100 kB (real subsetting and the >50 %-of-glyphs skip) and
+//!    unpadded (small-font skip).
+//!  * `legacy-create-subset`: `TrueTypeFont::create_subset` (used by `FontEmbedder` and
+//!    `font_manager`) on the synthetic fonts × all 256 glyph-id sets, and on Roboto × all
+//!    subsets of the distinct glyphs of the first character set (2^10).
+//! Oracle (refpdf::ttf / refpdf::cff, written from the OpenType spec and TN 5176/5177):
+//! the returned font parses; table directory, table checksums, head.checkSumAdjustment,
+//! loca (length, monotone, inside glyf), maxp.numGlyphs, hmtx length are consistent; every
+//! glyph of the subset decodes; for every requested character the ORIGINAL font maps, the
+//! returned glyph mapping has an entry, that glyph exists, its flattened outline
+//! (TrueType: contours of points after resolving composites under their transforms;
+//! CFF: the moveto/lineto/curveto list of the Type 2 charstring, subroutines executed)
+//! equals the original glyph's, and its advance width equals the original hmtx advance.
+//! Out of scope: hinting (instructions may be dropped), post names, kerning/GSUB/GPOS.
+use oxidize_pdf::text::fonts::cff_subsetter::subset_cff_font;
+use oxidize_pdf::text::fonts::truetype::TrueTypeFont;
+use oxidize_pdf::text::fonts::truetype_subsetter::{subset_font, subset_font_by_gids};
+use refpdf::cff::{self, Cff, PathOp};
+use refpdf::ttf::{self, synth, Font, Outline};
+use serde_json::json;
+use std::collections::{BTreeMap, HashSet};
+use vx::{Ctx, Explore, Report};
+
+pub const BUILT: bool = true;
+
+/// The 12-character sets (same for both bundled fonts; see `describe_chars` output in samples).
+const SET_A: [char; 12] = [
+    'A', '\u{2013}', '\u{E9}', '\u{C5}', ' ', '\u{FB01}', '\u{416}', '\u{439}', '\u{3A9}', '\u{2126}', '\u{4E2D}', '\u{1F16A}',
+];
+const SET_B: [char; 12] = [
+    'g', '\u{2014}', '\u{FC}', '\u{1EA4}', '\u{A0}', '\u{FB02}', '\u{42F}', '\u{451}', '\u{394}', '\u{2206}', '\u{FFFF}', '\u{1F16B}',
+];
+
+/// Third set (thorough): scaled-composite ≤, ñ, thin space, ffi, Ґ, ї, the µ/μ pair (one glyph in
+/// SourceSans3, simple + composite in Roboto), a private-use code, another astral code.
+const SET_C: [char; 12] = [
+    'Z', '\u{2264}', '\u{F1}', '\u{2009}', '\u{FB03}', '\u{490}', '\u{457}', '\u{3BC}', '\u{B5}', '\u{E000}', '\u{1F16C}', '\u{2DEC}',
+];
+
+// ------------------------------------------------------------------------------------
+// reference view of a font
+
+#[derive(Clone, Debug, PartialEq)]
+pub enum Shape {
+    Tt(Outline),
+    Cff(Vec<PathOp>),
+}
+
+impl Shape {
+    fn diff(&self, other: &Shape) -> Option<String> {
+        match (self, other) {
+            (Shape::Tt(a), Shape::Tt(b)) => ttf::outline_diff(a, b),
+            (Shape::Cff(a), Shape::Cff(b)) => cff::path_diff(a, b),
+            _ => Some("outline kinds differ (TrueType vs CFF)".into()),
+        }
+    }
+    fn size(&self) -> usize {
+        match self {
+            Shape::Tt(o) => o.iter().map(|c| c.len()).sum(),
+            Shape::Cff(p) => p.len(),
+        }
+    }
+}
+
+/// A font as the reference layer sees it: sfnt with glyf, sfnt with CFF, or bare CFF.
+pub enum RefFont {
+    Tt(Font),
+    OtfCff(Font, Cff),
+    RawCff(Cff),
+}
+
+impl RefFont {
+    pub fn open(bytes: &[u8], raw_cff: bool) -> Result<RefFont, String> {
+        if raw_cff {
+            return Ok(RefFont::RawCff(Cff::parse(bytes)?));
+        }
+        let f = Font::parse(bytes)?;
+        if f.is_glyf() {
+            Ok(RefFont::Tt(f))
+        } else {
+            let c = Cff::parse(f.sfnt.need_table(b"CFF ")?)?;
+            Ok(RefFont::OtfCff(f, c))
+        }
+    }
+    pub fn num_glyphs(&self) -> usize {
+        match self {
+            RefFont::Tt(f) => f.num_glyphs as usize,
+            RefFont::OtfCff(f, _) => f.num_glyphs as usize,
+            RefFont::RawCff(c) => c.num_glyphs(),
+        }
+    }
+    pub fn shape(&self, gid: u16) -> Result<Shape, String> {
+        match self {
+            RefFont::Tt(f) => f.flatten(gid).map(Shape::Tt),
+            RefFont::OtfCff(_, c) | RefFont::RawCff(c) => c.glyph(gid as usize).map(|g| Shape::Cff(g.path)),
+        }
+    }
+    /// Advance width: hmtx when there is one, the charstring's width for bare CFF.
+    pub fn advance(&self, gid: u16) -> Result<f64, String> {
+        match self {
+            RefFont::Tt(f) | RefFont::OtfCff(f, _) => f.advance(gid).map(|a| a as f64),
+            RefFont::RawCff(c) => c.glyph(gid as usize).map(|g| g.width),
+        }
+    }
+    pub fn sfnt(&self) -> Option<&Font> {
+        match self {
+            RefFont::Tt(f) | RefFont::OtfCff(f, _) => Some(f),
+            RefFont::RawCff(_) => None,
+        }
+    }
+}
+
+pub struct Original {
+    pub name: String,
+    pub data: Vec<u8>,
+    pub font: RefFont,
+    pub cmap: ttf::Cmap,
+}
+
+impl Original {
+    pub fn load(name: &str, data: Vec<u8>) -> Original {
+        let name = name.to_string();
+        let font = RefFont::open(&data, false).unwrap_or_else(|e| panic!("reference reader cannot open {name}: {e}"));
+        let cmap = font.sfnt().unwrap().cmap().unwrap_or_else(|e| panic!("{name}: cmap: {e}"));
+        Original { name, data, font, cmap }
+    }
+    pub fn bundled(file: &'static str) -> Original {
+        let p = vx::repo_root().join("test-pdfs").join(file);
+        let data = std::fs::read(&p).unwrap_or_else(|e| panic!("{}: {e}", p.display()));
+        Self::load(file, data)
+    }
+    pub fn gid(&self, ch: char) -> u16 {
+        self.cmap.unicode_lookup(ch as u32).unwrap_or(0)
+    }
+}
+
+// ------------------------------------------------------------------------------------
+// verdict collection
+
+#[derive(Default)]
+struct Fails {
+    by_key: BTreeMap<String, (String, u32)>,
+}
+impl Fails {
+    fn add(&mut self, key: impl Into<String>, detail: impl Into<String>) {
+        let e = self.by_key.entry(key.into()).or_insert_with(|| (detail.into(), 0));
+        e.1 += 1;
+    }
+    fn flush(self, c: &mut Ctx, ctx: &str) -> u64 {
+        let mut h = 0u64;
+        for (k, (d, n)) in self.by_key {
+            h = vx::hmix(h, vx::h64(&k));
+            c.fail(k, format!("{ctx}: {d} ({n} occurrence(s) in this case)"));
+        }
+        h
+    }
+}
+
+/// One thing the caller asked the subsetter to keep.
+struct Request {
+    label: String,
+    /// glyph of the original font; None = the original does not map the character
+    orig_gid: Option<u16>,
+    /// glyph id in the subset according to the mapping the library returned
+    new_gid: Option<u16>,
+}
+
+/// Well-formedness of an sfnt the subsetter produced. `orig` is the font it was made from.
+fn check_sfnt_wellformed(sub: &Font, orig: &Original, legacy: bool, fails: &mut Fails) {
+    for p in sub.sfnt.directory_problems() {
+        let key = if legacy && (p.contains("ascending tag order") || p.contains("not 4-byte aligned")) {
+            // create_subset walks a HashMap: the order (and with it the alignment) changes from run to run
+            "C12/sfnt-directory-in-hash-order-unsorted-or-unaligned"
+        } else if p.contains("ascending tag order") {
+            "C12/sfnt-directory-tags-not-sorted"
+        } else if p.contains("not 4-byte aligned") {
+            "C12/sfnt-table-offset-not-4-byte-aligned"
+        } else if p.contains("searchRange") || p.contains("entrySelector") || p.contains("rangeShift") {
+            "C12/sfnt-binary-search-header-wrong"
+        } else {
+            "C12/sfnt-directory-malformed"
+        };
+        fails.add(key, p);
+    }
+    let orig_adj = orig.font.sfnt().and_then(|f| f.sfnt.file_checksum().ok()).map(|x| x.0);
+    let sub_adj = sub.sfnt.file_checksum().ok();
+    for p in sub.sfnt.checksum_problems() {
+        let rec_head = sub.sfnt.rec(b"head");
+        let all_zero = sub.sfnt.tables.iter().all(|t| t.checksum == 0);
+        let key = if all_zero {
+            // legacy path writes a placeholder
+            "C12/sfnt-table-checksums-left-zero"
+        } else if p.starts_with("table 'head'")
+            && rec_head.map(|r| Some(r.checksum) == sub.sfnt.table(b"head").map(ttf::table_checksum)).unwrap_or(false)
+            && sub_adj.map(|x| Some(x.0) == orig_adj).unwrap_or(false)
+        {
+            // exact signature: directory value = sum over head INCLUDING the adjustment copied from the original
+            "C12/ttf-subset-head-checksum-summed-over-stale-checkSumAdjustment"
+        } else {
+            "C12/sfnt-table-checksum-wrong"
+        };
+        fails.add(key, p);
+    }
+    if let Some((stored, want)) = sub_adj {
+        if stored != want {
+            let key = if Some(stored) == orig_adj {
+                "C12/ttf-subset-checkSumAdjustment-copied-from-original"
+            } else {
+                "C12/sfnt-checkSumAdjustment-wrong"
+            };
+            fails.add(key, format!("head.checkSumAdjustment {stored:#010x}, file sums to {want:#010x}"));
+        }
+    }
+    for p in sub.structure_problems() {
+        let key = if p.starts_with("loca") || p.starts_with("last loca") {
+            "C12/ttf-loca-inconsistent"
+        } else if p.starts_with("hmtx") || p.starts_with("hhea") {
+            "C12/ttf-hmtx-inconsistent"
+        } else {
+            "C12/ttf-maxp-inconsistent"
+        };
+        fails.add(key, p);
+    }
+    if sub.is_glyf() {
+        for t in [b"glyf", b"head", b"hhea", b"hmtx", b"loca", b"maxp"] {
+            if !sub.sfnt.has(t) {
+                fails.add("C12/ttf-required-table-missing", format!("'{}' missing", ttf::tag_str(t)));
+            }
+        }
+    }
+}
+
+fn check_cff_wellformed(c: &Cff, fails: &mut Fails) {
+    for p in c.problems() {
+        let key = if p.starts_with("CIDCount") {
+            "C12/cff-subset-CIDCount-not-above-charset-CIDs"
+        } else if p.contains("assigned twice") {
+            "C12/cff-subset-charset-duplicate-id"
+        } else {
+            "C12/cff-subset-malformed"
+        };
+        fails.add(key, p);
+    }
+}
+
+/// Length of the bytes `build_subset_font` emits for one original glyph once instructions are
+/// dropped. Only used to recognise the exact signature of KF-C12-4 (never as an oracle).
+fn stripped_len(f: &Font, gid: u16) -> Option<usize> {
+    let b = f.glyph_bytes(gid).ok()?;
+    if b.len() < 12 {
+        return Some(b.len());
+    }
+    match ttf::decode_glyph(b).ok()? {
+        ttf::Glyph::Empty => Some(0),
+        ttf::Glyph::Simple { instructions, .. } => Some(b.len() - instructions),
+        ttf::Glyph::Composite { components, instructions, consumed, .. } => {
+            if components.last().map(|c| c.flags & ttf::WE_HAVE_INSTRUCTIONS != 0).unwrap_or(false) {
+                Some(consumed - 2 - instructions)
+            } else {
+                Some(b.len())
+            }
+        }
+    }
+}
+
+/// KF-C12-4 signature: the subset keeps the SHORT loca format, the glyf table is the
+/// concatenation of the instruction-stripped glyphs in ascending original order, at least
+/// one glyph starts at an odd byte, and every loca entry is that true offset with its low
+/// bit dropped (offset/2 stored in a u16). Returns the true offsets when it matches.
+fn short_loca_halving_signature(orig: &Font, sub: &Font, order: &[u16]) -> Option<Vec<u32>> {
+    if sub.index_to_loc_format != 0 || orig.index_to_loc_format != 0 || sub.num_glyphs as usize != order.len() {
+        return None;
+    }
+    let loca = sub.loca.as_ref()?;
+    let mut t = vec![0u32];
+    for &g in order {
+        let l = stripped_len(orig, g)? as u32;
+        t.push(t.last().unwrap() + l);
+    }
+    let glyf_len = sub.sfnt.table(b"glyf")?.len() as u32;
+    if *t.last().unwrap() != glyf_len || !t.iter().any(|o| o % 2 == 1) {
+        return None;
+    }
+    if loca.len() != t.len() || loca.iter().zip(&t).any(|(l, t)| *l != (t / 2) * 2) {
+        return None;
+    }
+    Some(t)
+}
+
+/// Oracle for one subsetting result. `legacy` selects the key space of the
+/// `TrueTypeFont::create_subset` path.
+fn verify(orig: &Original, out_bytes: &[u8], raw_cff: bool, reqs: &[Request], legacy: bool, fails: &mut Fails) -> u64 {
+    let unchanged = !raw_cff && out_bytes == orig.data.as_slice();
+    let mut oh = vx::h64(&(unchanged, raw_cff));
+    let mut sub = match RefFont::open(out_bytes, raw_cff) {
+        Ok(s) => s,
+        Err(e) => {
+            fails.add("C12/subset-font-unparseable", e);
+            return oh;
+        }
+    };
+    oh = vx::hmix(oh, sub.num_glyphs() as u64);
+    // glyphs the subset has to contain, in the ascending order both subsetters renumber by
+    let order: Option<Vec<u16>> = match &orig.font {
+        RefFont::Tt(of) => {
+            let mut v = vec![0u16];
+            for r in reqs {
+                if let Some(g) = r.orig_gid {
+                    let deps = if legacy { vec![g] } else { of.closure(g).expect("closure of an original glyph") };
+                    for d in deps {
+                        if !v.contains(&d) {
+                            v.push(d);
+                        }
+                    }
+                }
+            }
+            v.sort();
+            Some(v)
+        }
+        _ => None,
+    };
+    if !unchanged {
+        if let (RefFont::Tt(of), RefFont::Tt(sf), Some(order)) = (&orig.font, &mut sub, &order) {
+            if let Some(true_offsets) = short_loca_halving_signature(of, sf, order) {
+                let first_odd = true_offsets.iter().position(|o| o % 2 == 1).unwrap();
+                fails.add(
+                    "C12/ttf-subset-short-loca-drops-low-bit-of-odd-glyph-offsets",
+                    format!(
+                        "short loca kept, but after instruction stripping subset glyph {first_odd} starts at byte {} of glyf; loca stores {} (true offsets {:?}, loca {:?})",
+                        true_offsets[first_odd],
+                        sf.loca.as_ref().unwrap()[first_odd],
+                        &true_offsets[..true_offsets.len().min(10)],
+                        &sf.loca.as_ref().unwrap()[..true_offsets.len().min(10)]
+                    ),
+                );
+                // keep checking everything else against the glyphs as they really lie in glyf
+                sf.loca = Some(true_offsets);
+            }
+        }
+        match &sub {
+            RefFont::Tt(f) => check_sfnt_wellformed(f, orig, legacy, fails),
+            RefFont::OtfCff(f, c) => {
+                check_sfnt_wellformed(f, orig, legacy, fails);
+                check_cff_wellformed(c, fails);
+            }
+            RefFont::RawCff(c) => check_cff_wellformed(c, fails),
+        }
+        // every glyph of the subset must decode (components in range, charstrings complete)
+        for g in 0..sub.num_glyphs().min(65535) as u16 {
+            if let Err(e) = sub.shape(g).and_then(|_| sub.advance(g)) {
+                let old = order.as_ref().and_then(|o| o.get(g as usize).copied());
+                let key = match old {
+                    Some(old) if legacy && legacy_composite_copied_verbatim(orig, &sub, old, g) => LEGACY_COMPOSITE_KEY,
+                    _ => "C12/subset-glyph-undecodable",
+                };
+                fails.add(key, e);
+            }
+        }
+    }
+    for r in reqs {
+        let Some(og) = r.orig_gid else {
+            oh = vx::hmix(oh, 0); // the original does not map it: nothing is promised
+            continue;
+        };
+        let status: u8;
+        match r.new_gid {
+            None => {
+                fails.add("C12/requested-glyph-missing-from-returned-mapping", format!("{} (original glyph {og})", r.label));
+                status = 1;
+            }
+            Some(ng) if ng as usize >= sub.num_glyphs() => {
+                fails.add(
+                    "C12/returned-mapping-points-outside-the-subset",
+                    format!("{}: mapped to glyph {ng}, subset has {}", r.label, sub.num_glyphs()),
+                );
+                status = 2;
+            }
+            Some(ng) => {
+                let mut st = 3;
+                let verbatim_composite = legacy && !unchanged && legacy_composite_copied_verbatim(orig, &sub, og, ng);
+                match (orig.font.shape(og), sub.shape(ng)) {
+                    (Ok(a), Ok(b)) => {
+                        if let Some(d) = a.diff(&b) {
+                            let key = if verbatim_composite {
+                                LEGACY_COMPOSITE_KEY
+                            } else if b.size() == 0 && a.size() > 0 {
+                                "C12/requested-glyph-outline-empty-in-subset"
+                            } else {
+                                "C12/requested-glyph-outline-differs"
+                            };
+                            fails.add(key, format!("{}: original glyph {og} vs subset glyph {ng}: {d}", r.label));
+                            st = 4;
+                        }
+                    }
+                    (Err(e), _) => panic!("reference reader cannot flatten original glyph {og}: {e}"),
+                    (_, Err(e)) => {
+                        let key = if verbatim_composite { LEGACY_COMPOSITE_KEY } else { "C12/requested-glyph-undecodable-in-subset" };
+                        fails.add(key, format!("{}: subset glyph {ng}: {e}", r.label));
+                        st = 5;
+                    }
+                }
+                match (orig.font.advance(og), sub.advance(ng)) {
+                    (Ok(a), Ok(b)) => {
+                        if a != b {
+                            fails.add("C12/requested-glyph-advance-differs", format!("{}: original advance {a}, subset advance {b}", r.label));
+                            st += 10;
+                        }
+                    }
+                    (Err(e), _) => panic!("reference reader: original advance of glyph {og}: {e}"),
+                    (_, Err(e)) => {
+                        fails.add("C12/requested-glyph-advance-unreadable", format!("{}: {e}", r.label));
+                        st += 20;
+                    }
+                }
+                status = st;
+            }
+        }
+        oh = vx::hmix(oh, status as u64);
+    }
+    oh
+}
+
+const LEGACY_COMPOSITE_KEY: &str = "C12/legacy-composite-copied-verbatim-components-neither-carried-nor-renumbered";
+
+/// KF-C12-L4 signature: the original glyph is a composite, the subset glyph is byte-identical
+/// to it (component glyph ids still the ORIGINAL ids) although the ids were renumbered.
+fn legacy_composite_copied_verbatim(orig: &Original, sub: &RefFont, old: u16, new: u16) -> bool {
+    let (RefFont::Tt(of), RefFont::Tt(sf)) = (&orig.font, sub) else { return false };
+    let (Ok(ob), Ok(sb)) = (of.glyph_bytes(old), sf.glyph_bytes(new)) else { return false };
+    matches!(ttf::decode_glyph(ob), Ok(ttf::Glyph::Composite { .. })) && ob == sb
+}
+
+fn show_chars(chars: &[char]) -> String {
+    chars.iter().map(|c| format!("U+{:04X}", *c as u32)).collect::<Vec<_>>().join(" ")
+}
+
+/// One char-driven case: run the library, build the requests, verify.
+fn run_chars_case(c: &mut Ctx, orig: &Original, chars: &[char], direct_cff: bool) {
+    let set: HashSet<char> = chars.iter().copied().collect();
+    c.input(vx::h64(&(&orig.name, chars, direct_cff)));
+    let mapped = chars.iter().filter(|&&ch| orig.gid(ch) != 0).count();
+    let ctx = format!("{} chars=[{}] entry={}", orig.name, show_chars(chars), if direct_cff { "subset_cff_font" } else { "subset_font" });
+    let res = vx::guard(|| {
+        if direct_cff {
+            subset_cff_font(&orig.data, &set).map(|r| (r.font_data, r.glyph_mapping, r.is_raw_cff))
+        } else {
+            subset_font(orig.data.clone(), &set).map(|r| (r.font_data, r.glyph_mapping, r.is_raw_cff))
+        }
+    });
+    let (bytes, mapping, raw) = match res {
+        Ok(Ok(x)) => x,
+        Ok(Err(e)) => {
+            c.fail("C12/subsetter-returned-error", format!("{ctx}: {e:?}"));
+            return;
+        }
+        Err(p) => {
+            c.fail(format!("C12/subsetter-panicked@{}", vx::panic_site(&p)), format!("{ctx}: {p}"));
+            return;
+        }
+    };
+    let reqs: Vec<Request> = chars
+        .iter()
+        .map(|&ch| Request { label: format!("U+{:04X}", ch as u32), orig_gid: Some(orig.gid(ch)).filter(|&g| g != 0), new_gid: mapping.get(&(ch as u32)).copied() })
+        .collect();
+    let mut fails = Fails::default();
+    let oh = verify(orig, &bytes, raw, &reqs, false, &mut fails);
+    let really_subset = raw || bytes != orig.data;
+    if mapped > 0 && really_subset {
+        c.nontrivial();
+    }
+    c.add_evaluations(chars.len() as u64);
+    c.sample(json!({"font": orig.name, "chars": show_chars(chars), "mapped_in_original": mapped, "entry": if direct_cff {"subset_cff_font"} else {"subset_font"},
+                    "output": if !really_subset {"full font returned"} else if raw {"raw CID-keyed CFF"} else {"sfnt"}, "output_len": bytes.len()}));
+    let fh = fails.flush(c, &ctx);
+    c.outcome(vx::hmix(oh, fh));
+}
+
+// ------------------------------------------------------------------------------------
+// synthetic fonts
+
+fn sq(x: i16, y: i16, w: i16) -> Vec<(i16, i16, bool)> {
+    vec![(x, y, true), (x + w, y, true), (x + w, y + w, true), (x, y + w, true)]
+}
+
+/// The characters of the synthetic font's cmap, glyph 1..7, plus one unmapped character.
+const SYNTH_CHARS: [char; 8] = [' ', 'A', 'B', '\u{C9}', '\u{416}', '\u{417}', '\u{1F600}', 'Z'];
+
+/// 8 glyphs: 0 .notdef (2 contours), 1 empty, 2/3 simple, 4 composite (scaled component,
+/// instructions), 5 nested composite (2×2 with scaled offset, x/y scale), 6 point-matched
+/// composite referencing 3, 2 and 5, 7 simple.
+fn synth_font(long_loca: bool, short_hmtx: bool, instructions: bool, pad: bool, filler: usize) -> synth::SFont {
+    use synth::*;
+    let ins = |n: usize| if instructions { (0..n).map(|i| 0xB0 + (i % 8) as u8).collect() } else { Vec::new() };
+    let simple = |c: Vec<Vec<(i16, i16, bool)>>, i: Vec<u8>| Body::Simple { contours: c, instructions: i };
+    let g = |adv, lsb, body| SGlyph { advance: adv, lsb, body };
+    let mut font = SFont {
+        units_per_em: 2048,
+        long_loca,
+        num_h_metrics: if short_hmtx { 6 } else { 8 },
+        cmap12: true,
+        pad_table: if pad { 100_000 } else { 0 },
+        cmap: vec![(0x20, 1), (0x41, 2), (0x42, 3), (0xC9, 4), (0x416, 5), (0x417, 6), (0x1F600, 7)],
+        glyphs: vec![
+            g(500, 0, simple(vec![sq(0, 0, 500), vec![(100, 100, true), (250, 400, false), (400, 100, true)]], ins(3))),
+            g(250, 0, Body::Empty),
+            g(600, 0, simple(vec![vec![(0, 0, true), (300, 700, false), (600, 0, true), (300, -200, false), (300, 1, true)]], ins(5))),
+            g(700, -400, simple(vec![sq(10, 20, 300), sq(-400, 1000, 255), sq(0, 0, 256)], ins(4))),
+            g(
+                610,
+                0,
+                Body::Composite {
+                    comps: vec![
+                        Comp { gid: 2, arg: Arg::XyBytes(0, 0), xform: Xform::None, extra_flags: ttf::USE_MY_METRICS },
+                        Comp { gid: 3, arg: Arg::XyWords(300, 800), xform: Xform::Scale(0x2000), extra_flags: 0x0004 },
+                    ],
+                    instructions: ins(3),
+                },
+            ),
+            g(
+                800,
+                -20,
+                Body::Composite {
+                    comps: vec![
+                        Comp { gid: 4, arg: Arg::XyWords(-20, 10), xform: Xform::TwoByTwo(0x4000, 0x1000, -0x0800, 0x3000), extra_flags: ttf::SCALED_COMPONENT_OFFSET },
+                        Comp { gid: 0, arg: Arg::XyBytes(-5, 100), xform: Xform::XY(0x6000, 0x2000), extra_flags: ttf::UNSCALED_COMPONENT_OFFSET },
+                    ],
+                    instructions: Vec::new(),
+                },
+            ),
+            g(
+                900,
+                -400,
+                Body::Composite {
+                    comps: vec![
+                        Comp { gid: 3, arg: Arg::XyBytes(0, 0), xform: Xform::None, extra_flags: 0 },
+                        Comp { gid: 2, arg: Arg::PtBytes(5, 2), xform: Xform::Scale(0x3000), extra_flags: 0 },
+                        Comp { gid: 5, arg: Arg::PtWords(1, 0), xform: Xform::None, extra_flags: 0 },
+                    ],
+                    instructions: ins(1),
+                },
+            ),
+            g(1111, 0, simple(vec![sq(0, 0, 10)], ins(2))),
+        ],
+    };
+    // unmapped filler glyphs (so that "needs more than half of the glyphs" is not always true)
+    for k in 0..filler {
+        font.glyphs.push(g(300 + k as u16, 0, simple(vec![sq(k as i16, 0, 20 + k as i16)], ins(k % 3))));
+    }
+    font
+}
+
+struct SynthCase {
+    desc: String,
+    orig: Original,
+}
+
+fn synth_cases(pad: bool, filler: usize) -> Vec<SynthCase> {
+    let mut v = Vec::new();
+    for long_loca in [false, true] {
+        for short_hmtx in [false, true] {
+            for instructions in [true, false] {
+                let spec = synth_font(long_loca, short_hmtx, instructions, pad, filler);
+                let bytes = spec.build();
+                let desc = format!(
+                    "loca={} numberOfHMetrics={} instructions={} glyphs={} size={}",
+                    if long_loca { "long" } else { "short" },
+                    if short_hmtx { 6 } else { 8 },
+                    instructions,
+                    8 + filler,
+                    bytes.len()
+                );
+                let orig = Original::load(&format!("synthetic[{desc}]"), bytes);
+                // the reference reader must see exactly the specified font
+                for gid in 0..8u16 {
+                    let got = orig.font.shape(gid).expect("synthetic glyph");
+                    let want = Shape::Tt(spec.expected_outline(gid).expect("spec outline"));
+                    assert!(got.diff(&want).is_none(), "synthetic font glyph {gid} does not read back");
+                    assert_eq!(orig.font.advance(gid).unwrap(), spec.file_advance(gid) as f64);
+                }
+                let f = orig.font.sfnt().unwrap();
+                assert!(f.sfnt.directory_problems().is_empty() && f.sfnt.checksum_problems().is_empty() && f.structure_problems().is_empty());
+                v.push(SynthCase { desc, orig });
+            }
+        }
+    }
+    v
+}
+
+fn subset_from_mask<T: Copy>(items: &[T], mask: usize) -> Vec<T> {
+    items.iter().enumerate().filter(|(i, _)| mask >> i & 1 == 1).map(|(_, &t)| t).collect()
+}
+
+pub fn run(rep: &mut Report) {
+    let thorough = rep.tier.is_thorough();
+    // The subsetters clone the 0.3-0.5 MB font per call; keep those buffers in the malloc arenas
+    // instead of one mmap/munmap pair each (16 threads serialise on the address-space lock).
+    unsafe {
+        libc::mallopt(libc::M_MMAP_THRESHOLD, 16 << 20);
+        libc::mallopt(libc::M_TRIM_THRESHOLD, 256 << 20);
+        libc::mallopt(libc::M_TOP_PAD, 16 << 20);
+    }
+    rep.rule(
+        "case = (font, set of requested characters or glyph ids, entry point); every subset of the 12-character \
+         set / of the 8 glyph ids is enumerated; non-trivial = at least one requested item is mapped by the original \
+         font AND the library really produced a new font (not the unchanged input); distinct input = (font, set, entry)",
+    );
+    rep.assume("refpdf::ttf / refpdf::cff read fonts correctly (validated on every glyph of both bundled fonts: header bounding boxes, hmtx widths/bearings, FontBBox, checksums)");
+    rep.assume("a character counts as mapped by the original when the font's best Unicode cmap subtable (format 12 before format 4; both agree on the BMP) gives a non-zero glyph");
+    rep.assume("instructions, post names, kerning and layout tables may be dropped by the subsetter (out of scope)");
+
+    let roboto = Original::bundled("Roboto-Regular.ttf");
+    let sans = Original::bundled("SourceSans3-Regular.otf");
+    let sets: Vec<&[char; 12]> = if thorough { vec![&SET_A, &SET_B, &SET_C] } else { vec![&SET_A] };
+
+    rep.explore("roboto-chars", Explore::full(), |c: &mut Ctx| {
+        let set = *c.pick_from("charset", &sets);
+        let mask = c.choose("subset", 4096);
+        run_chars_case(c, &roboto, &subset_from_mask(set, mask), false);
+    });
+    rep.explore("sourcesans-chars", Explore::full(), |c: &mut Ctx| {
+        let set = *c.pick_from("charset", &sets);
+        let direct = c.flag("direct_cff_entry");
+        let mask = c.choose("subset", 4096);
+        run_chars_case(c, &sans, &subset_from_mask(set, mask), direct);
+    });
+
+    // ---- whole-repertoire prefixes: the keep-the-full-font branch
+    let all_chars = |o: &Original| -> Vec<char> {
+        let sub = o.cmap.unicode_sub().expect("unicode cmap");
+        o.cmap.mappings(sub).expect("mappings").into_iter().filter_map(|(c, _)| char::from_u32(c)).collect()
+    };
+    let reps = [all_chars(&roboto), all_chars(&sans)];
+    rep.explore("bundled-large-sets", Explore::full(), |c: &mut Ctx| {
+        let fi = c.choose("font", 2);
+        let frac = *c.pick_from("prefix", &[(1usize, 1usize), (3, 4), (1, 2), (1, 4), (0, 1)]);
+        let orig = if fi == 0 { &roboto } else { &sans };
+        let all = &reps[fi];
+        let n = if frac.0 == 0 { 100 } else { all.len() * frac.0 / frac.1 };
+        run_chars_case(c, orig, &all[..n], false);
+    });
+
+    // ---- synthetic fonts
+    let synth_small = synth_cases(false, 0);
+    let synth_big = synth_cases(true, 6);
+    rep.note("synthetic_fonts", json!(synth_small.iter().chain(synth_big.iter()).map(|s| s.desc.clone()).collect::<Vec<_>>()));
+
+    rep.explore("synthetic-gids", Explore::full(), |c: &mut Ctx| {
+        let fi = c.choose("font", synth_small.len());
+        let mask = c.choose("gids", 256);
+        let sc = &synth_small[fi];
+        let gids: Vec<u16> = subset_from_mask(&[0u16, 1, 2, 3, 4, 5, 6, 7], mask);
+        c.input(vx::h64(&(fi, &gids)));
+        let ctx = format!("synthetic font [{}] gids={gids:?} entry=subset_font_by_gids", sc.desc);
+        let set: HashSet<u16> = gids.iter().copied().collect();
+        let res = vx::guard(|| subset_font_by_gids(sc.orig.data.clone(), &set).map(|r| (r.font_data, r.old_to_new)));
+        let (bytes, map) = match res {
+            Ok(Ok(x)) => x,
+            Ok(Err(e)) => {
+                c.fail("C12/subsetter-returned-error", format!("{ctx}: {e:?}"));
+                return;
+            }
+            Err(p) => {
+                c.fail(format!("C12/subsetter-panicked@{}", vx::panic_site(&p)), format!("{ctx}: {p}"));
+                return;
+            }
+        };
+        // requested glyphs and everything they reference must be carried along
+        let f = sc.orig.font.sfnt().unwrap();
+        let mut want: Vec<u16> = vec![0];
+        for &g in &gids {
+            for d in f.closure(g).expect("closure") {
+                if !want.contains(&d) {
+                    want.push(d);
+                }
+            }
+        }
+        let reqs: Vec<Request> =
+            want.iter().map(|&g| Request { label: format!("glyph {g}"), orig_gid: Some(g), new_gid: map.get(&g).copied() }).collect();
+        let mut fails = Fails::default();
+        let mut oh = verify(&sc.orig, &bytes, false, &reqs, false, &mut fails);
+        // renumbering must be consistent: an injective map onto 0..numGlyphs
+        let mut news: Vec<u16> = map.values().copied().collect();
+        news.sort();
+        if news.iter().enumerate().any(|(i, &n)| n as usize != i) {
+            fails.add("C12/gid-renumbering-not-a-compact-bijection", format!("old_to_new = {:?}", map.iter().collect::<BTreeMap<_, _>>()));
+        }
+        oh = vx::hmix(oh, news.len() as u64);
+        if !gids.is_empty() {
+            c.nontrivial();
+        }
+        c.add_evaluations(want.len() as u64);
+        c.sample(json!({"font": sc.desc, "gids": gids, "kept_with_components": want, "output_len": bytes.len()}));
+        let fh = fails.flush(c, &ctx);
+        c.outcome(vx::hmix(oh, fh));
+    });
+
+    rep.explore("synthetic-chars", Explore::full(), |c: &mut Ctx| {
+        let pad = c.flag("padded_past_100k");
+        let cases = if pad { &synth_big } else { &synth_small };
+        let fi = c.choose("font", cases.len());
+        let mask = c.choose("subset", 256);
+        run_chars_case(c, &cases[fi].orig, &subset_from_mask(&SYNTH_CHARS, mask), false);
+    });
+
+    // ---- legacy TrueTypeFont::create_subset (FontEmbedder / font_manager path)
+    let mut set_a_gids: Vec<u16> = SET_A.iter().map(|&ch| roboto.gid(ch)).filter(|&g| g != 0).collect();
+    set_a_gids.sort();
+    set_a_gids.dedup();
+    rep.explore("legacy-create-subset", Explore::full(), |c: &mut Ctx| {
+        let which = c.choose("font", synth_small.len() + 1);
+        let (orig, desc, gids): (&Original, String, Vec<u16>) = if which < synth_small.len() {
+            let mask = c.choose("gids", 256);
+            (&synth_small[which].orig, format!("synthetic font [{}]", synth_small[which].desc), subset_from_mask(&[0u16, 1, 2, 3, 4, 5, 6, 7], mask))
+        } else {
+            let mask = c.choose("subset", 1 << set_a_gids.len());
+            (&roboto, "Roboto-Regular.ttf".to_string(), subset_from_mask(&set_a_gids, mask))
+        };
+        c.input(vx::h64(&(which, &gids)));
+        let ctx = format!("{desc} gids={gids:?} entry=TrueTypeFont::create_subset");
+        let set: HashSet<u16> = gids.iter().copied().collect();
+        let res = vx::guard(|| TrueTypeFont::parse(orig.data.clone()).and_then(|f| f.create_subset(&set)));
+        let bytes = match res {
+            Ok(Ok(x)) => x,
+            Ok(Err(e)) => {
+                c.fail("C12/legacy-create-subset-returned-error", format!("{ctx}: {e:?}"));
+                return;
+            }
+            Err(p) => {
+                c.fail(format!("C12/legacy-create-subset-panicked@{}", vx::panic_site(&p)), format!("{ctx}: {p}"));
+                return;
+            }
+        };
+        // create_subset returns no mapping: it renumbers {0} ∪ gids in ascending order (its
+        // documented scheme) and writes a cmap; both resolutions are checked.
+        let mut kept: Vec<u16> = gids.clone();
+        kept.push(0);
+        kept.sort();
+        kept.dedup();
+        let reqs: Vec<Request> = kept
+            .iter()
+            .enumerate()
+            .map(|(i, &g)| Request { label: format!("glyph {g}"), orig_gid: Some(g), new_gid: Some(i as u16) })
+            .collect();
+        let mut fails = Fails::default();
+        let mut oh = verify(orig, &bytes, false, &reqs, true, &mut fails);
+        if let Ok(RefFont::Tt(sub)) = RefFont::open(&bytes, false) {
+            match sub.cmap() {
+                Ok(cm) => {
+                    let osub = orig.cmap.unicode_sub().unwrap();
+                    for (cp, g) in orig.cmap.mappings(osub).unwrap() {
+                        if cp <= 0xFFFF && kept.contains(&g) && g != 0 {
+                            let want = kept.iter().position(|&k| k == g).unwrap() as u16;
+                            let got = cm.unicode_lookup(cp).unwrap_or(0);
+                            if got != want {
+                                fails.add("C12/legacy-subset-cmap-wrong", format!("U+{cp:04X}: subset cmap gives glyph {got}, expected {want}"));
+                            }
+                        }
+                    }
+                }
+                Err(e) => fails.add("C12/legacy-subset-cmap-unreadable", e),
+            }
+        }
+        oh = vx::hmix(oh, kept.len() as u64);
+        if !gids.is_empty() {
+            c.nontrivial();
+        }
+        c.add_evaluations(kept.len() as u64);
+        c.sample(json!({"font": desc, "gids": gids, "output_len": bytes.len()}));
+        // legacy findings get their own key space so they never mask the main path
+        let mut legacy = Fails::default();
+        for (k, (d, n)) in fails.by_key {
+            let k2 = k.replacen("C12/", "C12/legacy-", 1).replace("legacy-legacy-", "legacy-");
+            legacy.by_key.insert(k2, (d, n));
+        }
+        let fh = legacy.flush(c, &ctx);
+        c.outcome(vx::hmix(oh, fh));
+    });
+}
+
